@@ -91,6 +91,13 @@ type Serf struct {
 	queryResponse   map[LamportTime]*QueryResponse
 	queryLock       sync.RWMutex
 
+	// eventSendLock and querySendLock serialize the origination of local user
+	// events and queries: reading the Lamport clock for a new message and
+	// advancing it must be atomic with respect to other local senders, or two
+	// concurrent calls stamp their messages with the same time.
+	eventSendLock sync.Mutex
+	querySendLock sync.Mutex
+
 	logger     *log.Logger
 	joinLock   sync.Mutex
 	stateLock  sync.Mutex
@@ -479,6 +486,9 @@ func (s *Serf) UserEvent(name string, payload []byte, coalesce bool) error {
 		)
 	}
 
+	s.eventSendLock.Lock()
+	defer s.eventSendLock.Unlock()
+
 	// Create a message
 	msg := messageUserEvent{
 		LTime:   s.eventClock.Time(),
@@ -551,6 +561,9 @@ func (s *Serf) Query(name string, payload []byte, params *QueryParam) (*QueryRes
 	if params.RequestAck {
 		flags |= queryFlagAck
 	}
+
+	s.querySendLock.Lock()
+	defer s.querySendLock.Unlock()
 
 	// Create a message
 	q := messageQuery{
